@@ -227,7 +227,7 @@ RejectEarly == pc \in {"rejected", "refused", "ffalse"} => ncmd = 0 /\ tag = tag
 CodeReadOk ==        \* the chunked read of nfcpy covers exactly the blocks the reference reader needs
     HasNdef(tag) =>
         LET plan == CodeReadPlan(tag)
-            blocks == FlattenSeq(Tail(plan))
+            blocks == FoldLeft(LAMBDA a, b : a \o b, <<>>, Tail(plan))     \* (FlattenSeq recurses too deep)
         IN /\ blocks = [k \in 1..(LastBlk(tag.attr.ln) - 1) |-> k]
            /\ \A c \in 1..Len(plan) : Len(plan[c]) >= 1 /\ Len(plan[c]) <= Min2(tag.attr.nbr, RdMax)
 \* C02: every reachable state of a write, in particular every PowerCut state
